@@ -10,8 +10,9 @@ fn fwd(op: &Op, _ctx: &dyn Context, operands: &mut dyn CoordinateSet) -> usize {
     let mut successes = 0_usize;
     let n = operands.len();
 
-    // Nothing to do?
-    if grids.is_empty() {
+    // Nothing to do? (only the null grid given. Without it, a point is outside of all
+    // of the no grids we have, and is handled as such below)
+    if grids.is_empty() && use_null_grid {
         return n;
     }
 
@@ -53,8 +54,9 @@ fn inv(op: &Op, _ctx: &dyn Context, operands: &mut dyn CoordinateSet) -> usize {
     let mut successes = 0_usize;
     let n = operands.len();
 
-    // Nothing to do?
-    if grids.is_empty() {
+    // Nothing to do? (only the null grid given. Without it, a point is outside of all
+    // of the no grids we have, and is handled as such below)
+    if grids.is_empty() && use_null_grid {
         return n;
     }
 
